@@ -146,7 +146,7 @@ def errStr : Err → String
   | .invalidTypeName => "invalidname" | .undefValue => "undefvalue" | .ambiguous => "ambiguous"
   | .baseSvc => "basesvc" | .tdCycle => "tdcycle" | .tdNotFound => "tdnotfound"
   | .notParsed => "notparsed" | .goPanic => "panic" | .derefErr => "dereferr"
-  | .includeCycle => "includecycle" | .loopDiverged => "loopdiverged" | .crash => "crash"
+  | .includeCycle => "includecycle" | .loopDiverged => "loopdiverged" | .fuel => "modelfuel" | .crash => "crash"
 
 structure DCtx where
   views : Nat → Option FileView
@@ -199,8 +199,8 @@ def fileRecords (d : DCtx) (f : File) (rf : RFile) : List String :=
       (match fd.ret with
        | some te => [s!"R.{hx sd.name}.{k}.{typeRec d rf (.ret sd.name k) te}"]
        | none => []) ++
-      ((zipIdx fd.args fd.args).map fun (a, ad, _) => s!"A.{hx sd.name}.{k}.{a}.{typeRec d rf (.arg sd.name k a) ad.type}") ++
-      ((zipIdx fd.throws fd.throws).map fun (a, ad, _) => s!"X.{hx sd.name}.{k}.{a}.{typeRec d rf (.throw sd.name k a) ad.type}")
+      ((zipIdx fd.args fd.args).map fun (a, ad, _) => s!"A.{hx sd.name}.{k}.{a}.{typeRec d rf (.arg sd.name k a) ad.type}.{bindRec rf (.arg sd.name k a)}") ++
+      ((zipIdx fd.throws fd.throws).map fun (a, ad, _) => s!"X.{hx sd.name}.{k}.{a}.{typeRec d rf (.throw sd.name k a) ad.type}.{bindRec rf (.throw sd.name k a)}")
   sortStrs (n ++ t ++ c ++ s ++ v)
 
 def usedStr (u : List Bool) : String := String.ofList (u.map fun b => if b then '1' else '0')
